@@ -85,11 +85,12 @@ func fakeSnapshot() *gocbcore.ConfigSnapshot {
 // ---- the durable world: survives a crash of the library process ---------------------------
 
 type World struct {
-	mu     sync.Mutex
-	NVB    int
-	Store  map[uint16]*models.CheckpointDocument
-	High   []uint64                     // per Go vbID
-	FoLog  [][]gocbcore.FailoverEntry   // per Go vbID, newest first
+	mu       sync.Mutex
+	NVB      int
+	Store    map[uint16]*models.CheckpointDocument
+	High     []uint64                   // per Go vbID
+	CollHigh []uint64                   // highest seqno of a document of the streamed collection (what a collection-aware query answers)
+	FoLog    [][]gocbcore.FailoverEntry // per Go vbID, newest first
 }
 
 func NewWorld(nvb int) *World {
@@ -100,6 +101,15 @@ func NewWorld(nvb int) *World {
 func (w *World) SetHigh(vb int, h uint64) {
 	w.mu.Lock()
 	w.High[vb] = h
+	w.mu.Unlock()
+}
+
+func (w *World) SetCollHigh(vb int, h uint64) {
+	w.mu.Lock()
+	for len(w.CollHigh) <= vb {
+		w.CollHigh = append(w.CollHigh, 0)
+	}
+	w.CollHigh[vb] = h
 	w.mu.Unlock()
 }
 
@@ -162,7 +172,7 @@ func (c *Client) GetAgentQueues() []*models.AgentQueue {
 	return nil
 }
 
-func (c *Client) GetVBucketSeqNos(bool) (*wrapper.ConcurrentSwissMap[uint16, uint64], error) {
+func (c *Client) GetVBucketSeqNos(collectionAware bool) (*wrapper.ConcurrentSwissMap[uint16, uint64], error) {
 	if atomic.LoadInt32(&c.r.inHook) > 0 {
 		// asked by a scrape that a lifecycle callback issues: answered at once, not a step of the schedule
 		m := wrapper.CreateConcurrentSwissMap[uint16, uint64](16)
@@ -177,14 +187,24 @@ func (c *Client) GetVBucketSeqNos(bool) (*wrapper.ConcurrentSwissMap[uint16, uin
 	v := c.r.S.At("GetVBucketSeqNos", "", nil)
 	hi := make([]any, c.r.W.NVB)
 	m := wrapper.CreateConcurrentSwissMap[uint16, uint64](16)
+	scrape := c.r.S.Thread() == "scr" // the metric collector asks, not checkpoint.Load
+	miss, hasMiss := v.(MissingVb)
 	c.r.W.mu.Lock()
 	for i, h := range c.r.W.High {
+		if hasMiss && int(miss) == i {
+			hi[i] = Enc(0) // no node reported this vBucket: the answer has no entry for it
+			continue
+		}
+		hi[i] = Enc(h) // (the event reports the vBuckets' high seqnos as they are)
+		if collectionAware && !scrape && i < len(c.r.W.CollHigh) {
+			// a collection-aware query is answered with the high seqno of the streamed collection: system and seqno-advanced
+			// events at the end of a vBucket's history are not part of it (the library asks this way for the lag metric only)
+			h = c.r.W.CollHigh[i]
+		}
 		m.Store(uint16(i), h)
-		hi[i] = Enc(h)
 	}
 	c.r.W.mu.Unlock()
 	latest := c.r.Cfg.Checkpoint.AutoReset == "latest"
-	scrape := c.r.S.Thread() == "scr" // the metric collector asks, not checkpoint.Load
 	if err, ok := v.(error); ok && err != nil {
 		c.r.S.Emit(Ev{"ev": "SeqNos", "ok": false, "high": hi, "latest": latest, "partial": c.r.Partial, "scrape": scrape})
 		return nil, err
@@ -192,6 +212,9 @@ func (c *Client) GetVBucketSeqNos(bool) (*wrapper.ConcurrentSwissMap[uint16, uin
 	c.r.S.Emit(Ev{"ev": "SeqNos", "ok": true, "high": hi, "latest": latest, "partial": c.r.Partial, "scrape": scrape})
 	return m, nil
 }
+
+// MissingVb releases a GetVBucketSeqNos call with an answer that lacks the entry of one vBucket.
+type MissingVb int
 
 func (c *Client) GetFailOverLogs(vb uint16) ([]gocbcore.FailoverEntry, error) {
 	v := c.r.S.At("GetFailOverLogs", "", nil)
@@ -238,8 +261,12 @@ func (c *Client) CloseStream(vb uint16) error {
 func (c *Client) GetCollectionIDs(string, []string) (map[uint32]string, error) {
 	return c.r.CollectionIDs, nil
 }
-func (c *Client) GetAgentConfigSnapshot() (*gocbcore.ConfigSnapshot, error)    { return fakeSnapshot(), nil }
-func (c *Client) GetDcpAgentConfigSnapshot() (*gocbcore.ConfigSnapshot, error) { return fakeSnapshot(), nil }
+func (c *Client) GetAgentConfigSnapshot() (*gocbcore.ConfigSnapshot, error) {
+	return fakeSnapshot(), nil
+}
+func (c *Client) GetDcpAgentConfigSnapshot() (*gocbcore.ConfigSnapshot, error) {
+	return fakeSnapshot(), nil
+}
 
 func (c *Client) Observer(vb uint16) couchbase.Observer {
 	c.mu.Lock()
@@ -259,6 +286,14 @@ type Meta struct {
 	mu       sync.Mutex
 	inflight map[string]*saveArgs // thread -> arguments of the Save call parked in the store
 	session  []uint16             // vBuckets handed to the last Load call
+	loads    int                  // Load calls so far: every Open() makes a new checkpoint object (contexts carry its Save as Commit)
+}
+
+// Session numbers the stream sessions (one per metadata Load).
+func (m *Meta) Session() int {
+	m.mu.Lock()
+	defer m.mu.Unlock()
+	return m.loads
 }
 
 func (m *Meta) Save(state map[uint16]*models.CheckpointDocument, dirty map[uint16]bool, _ string) error {
@@ -350,6 +385,7 @@ func (m *Meta) Load(vbs []uint16, b string) (*wrapper.ConcurrentSwissMap[uint16,
 	sort.Ints(l)
 	m.mu.Lock()
 	m.session = append([]uint16{}, vbs...) // the vBuckets of the session that begins
+	m.loads++
 	m.mu.Unlock()
 	m.r.S.Emit(Ev{"ev": "Load", "vbs": l})
 	v := m.r.S.At("md.Load", "", nil)
@@ -389,9 +425,10 @@ func (m *Meta) Clear([]uint16) error { return nil }
 // ---- fake consumer ---------------------------------------------------------------------------------
 
 type Ctx struct {
-	Vb  int // spec numbering
-	Off Ev
-	C   *models.ListenerContext
+	Vb   int // spec numbering
+	Off  Ev
+	C    *models.ListenerContext
+	Sess int // stream session the context was handed out in
 }
 
 type Consumer struct {
@@ -399,6 +436,8 @@ type Consumer struct {
 	mu   sync.Mutex
 	Ctxs []*Ctx
 	Hold bool // park inside ConsumeEvent
+	// the next TrackOffset call parks (the acknowledging goroutine is held between the position store and the dirty mark)
+	HoldTrack atomic.Bool
 }
 
 func KeyClass(key []byte) string {
@@ -439,6 +478,7 @@ func (c *Consumer) ConsumeEvent(ctx *models.ListenerContext) {
 		e = Ev{"ev": "Consume", "vb": 0, "k": fmt.Sprintf("%T", ctx.Event), "q": 0, "key": "?", "off": NoOff()}
 		cx = &Ctx{C: ctx, Off: NoOff()}
 	}
+	cx.Sess = c.r.Meta.Session()
 	c.mu.Lock()
 	c.Ctxs = append(c.Ctxs, cx)
 	hold := c.Hold
@@ -449,6 +489,20 @@ func (c *Consumer) ConsumeEvent(ctx *models.ListenerContext) {
 	}
 }
 
+// Commit returns the Commit function of the context handed out last in the current stream session (what a consumer that
+// commits from its listener calls), nil if there is none.
+func (c *Consumer) Commit() func() {
+	sess := c.r.Meta.Session()
+	c.mu.Lock()
+	defer c.mu.Unlock()
+	for i := len(c.Ctxs) - 1; i >= 0; i-- {
+		if cx := c.Ctxs[i]; cx.Sess == sess && cx.C != nil && cx.C.Commit != nil {
+			return cx.C.Commit
+		}
+	}
+	return nil
+}
+
 func (c *Consumer) SetHold(h bool) {
 	c.mu.Lock()
 	c.Hold = h
@@ -457,6 +511,10 @@ func (c *Consumer) SetHold(h bool) {
 
 func (c *Consumer) TrackOffset(vb uint16, o *models.Offset) {
 	c.r.S.Emit(Ev{"ev": "Track", "vb": int(vb) + 1, "off": OffEv(o)})
+	// user code may take any time here: setOffset has stored the position and has not marked it for saving yet
+	if c.HoldTrack.CompareAndSwap(true, false) {
+		c.r.S.At("track", "", nil)
+	}
 }
 
 func (c *Consumer) Ctx(i int) *Ctx {
@@ -494,9 +552,9 @@ func (h *Handler) BeforeStreamStart() {
 		}
 	})
 }
-func (h *Handler) AfterStreamStart()     { h.cb("AfterStreamStart") }
-func (h *Handler) BeforeStreamStop()     { h.cb("BeforeStreamStop") }
-func (h *Handler) AfterStreamStop()      { h.cb("AfterStreamStop") }
+func (h *Handler) AfterStreamStart() { h.cb("AfterStreamStart") }
+func (h *Handler) BeforeStreamStop() { h.cb("BeforeStreamStop") }
+func (h *Handler) AfterStreamStop()  { h.cb("AfterStreamStop") }
 
 // ---- the rig ---------------------------------------------------------------------------------------------
 
@@ -506,9 +564,10 @@ type Options struct {
 	Membership     string // "static" | "dynamic" | "kubernetesHa"
 	Member, Total  int
 	CheckpointAuto bool
-	ReadOnly       bool // metadata.readOnly
-	RmReal         bool // rollback mitigation is the real polling object over a simulated cluster (else: the emulated replica table)
-	HookScrapes    bool // the event handler scrapes the metrics endpoint from inside every lifecycle callback
+	ReadOnly       bool   // metadata.readOnly
+	MetaCollection string // (couchbase metadata) the collection the connector is configured to keep its own documents in
+	RmReal         bool   // rollback mitigation is the real polling object over a simulated cluster (else: the emulated replica table)
+	HookScrapes    bool   // the event handler scrapes the metrics endpoint from inside every lifecycle callback
 	SkipUntil      *time.Time
 	Version        *couchbase.Version
 }
@@ -705,6 +764,11 @@ func Boot(w *World, opt Options) *Rig {
 		cfg.Dcp.Mode = config.DcpModeFinite
 	}
 	cfg.Metadata.ReadOnly = opt.ReadOnly
+	if opt.MetaCollection != "" {
+		// Couchbase metadata kept in a scope / collection of its own (the store itself is the rig's): what the library does with
+		// reserved keys must not depend on where its own documents are configured to live
+		cfg.Metadata.Config = map[string]string{config.CouchbaseMetadataScopeConfig: "connector", config.CouchbaseMetadataCollectionConfig: opt.MetaCollection}
+	}
 	cfg.Dcp.Listener.SkipUntil = opt.SkipUntil
 	if opt.Membership == "" {
 		opt.Membership = membership.KubernetesHaMembershipType
